@@ -28,15 +28,15 @@ CLAIMED = {
   "C23": dict(engine="E1 netsim1", level="exploration", design="§4 C23, Appendix A",
       technique="deterministic simulation of a real agent vs. a simulated (spec-driven, partly Byzantine) peer over two real multiplexers on seeded pipes; per-state sweep of every message through send_message/recv_message plus high-level moves judged by spec automata",
       text="21 protocol x role agents of the original stack converse for up to 40 steps with a simulated peer; at each reached state every message variant is offered to send_message and delivered to recv_message (verdict must match the spec's agency/transition table, accepted sends must reach the peer unchanged, raw calls must not move the state), then a legal or illegal move is taken through the high-level API and the resulting state compared with the spec successor.",
-      note="21 agents incl. the N2C instantiations; agents with private raw API are judged through high-level methods only. Six KNOWN-FINDING signatures (tx-monitor single Busy state)."),
+      note="21 agents incl. the N2C instantiations; agents with private raw API are judged through high-level methods only. Keep-alive responses carry a wrong cookie in a quarter of the cases (must be refused without a state change). Six KNOWN-FINDING signatures (tx-monitor single Busy state)."),
   "C26": dict(engine="E4 histsim + E1 netsim1", level="exploration", design="§4 C26",
       technique="deterministic history simulation vs. Vec<Point> reference model; plus two-node chain-sync simulation with a forking producer feeding the real client and buffer",
       text="Operation histories (<= 200 ops over 2..9 points, forcing duplicates and misses) are applied to the real RollbackBuffer and a list model compared after every step; a second batch obtains the roll-forward/backward history from a simulated forking chain-sync server through the real N2NClient over real multiplexers.",
-      note="With duplicate points the model accepts truncation after any occurrence (the statement does not say which)."),
+      note="The list model rolls back to the first occurrence of a duplicated point (Vec::position, what RollbackBuffer::position documents). Alphabet: Origin, a block in slot 0, two competing blocks per further slot."),
   "C42": dict(engine="E3 disksim", level="exploration", design="§4 C42, Appendix B",
       technique="deterministic simulation of a writer model of cardano-node's ImmutableDB interleaved with the real reader; single-copy-log reference model",
       text="Per run a seeded database is written into a tmpfs directory by a model of the node's append path (real blocks, seeded chunk boundaries, empty slots, chunk numbers); reader operations run while the writer appends / finalises / opens chunks between reader steps; results are compared with a single-copy log of the immutable chunks at listing time (full read, tip, exact / fuzzy / absent points, Origin).",
-      note="Block metadata of the model comes from MultiEraBlock::decode. A genesis-rooted chain built from genesis.block + Byron block artefacts makes the Origin success path reachable. Known findings: slot-only point before the first block; empty immutable chunk files."),
+      note="A slot-only point beyond the last immutable block must give Ok(empty) when the database holds blocks. Block metadata of the model comes from MultiEraBlock::decode. A genesis-rooted chain built from genesis.block + Byron block artefacts makes the Origin success path reachable. Known findings: slot-only point before the first block; empty immutable chunk files."),
   "C43": dict(engine="E3 disksim", level="fault_enumeration", design="§4 C43",
       technique="deterministic fault injection on the simulated disk state (torn/short/lost/zero-length files, garbled offsets, bit flips) with crash-supervised child process and address-space limit",
       text="Seeded databases receive truncations at seeded byte offsets (sweep batch: one truncation per run), lost and zero-length files, garbled primary/secondary offsets and bit flips; all reader operations then run and every yielded block is decoded. Oracle: no panic, no process abort (the check runs in a supervised child under RLIMIT_AS, aborts are attributed to the run via per-worker breadcrumbs), bounded output.",
@@ -44,19 +44,19 @@ CLAIMED = {
   "C21": dict(engine="E1 netsim1", level="fault_enumeration", design="§4 C21",
       technique="deterministic simulation: simulated sender cutting message streams at seeded/enumerated split points and interleaving protocols, real demuxer and reassembly on a seeded pipe (short reads, stalls, delays)",
       text="For every protocol/message variant of both stacks a simulated sender cuts the concatenated encodings at split points (all cut masks sampled for streams <= 12 bytes; all-1-byte, every single offset, message-boundary and near-boundary, dense and random cut sets otherwise), interleaves other protocols' segments and feeds the real reassembly code; the messages yielded must equal those sent, in order, with no error and no left-over (sentinel / empty partial map).",
-      note="Split points are sampled per run, not exhaustively enumerated for long streams; zero-length segments are not generated. Mode B (TcpConnectionPool) is not driven; read_full_msgs is called the way the pool calls it."),
+      note="Split points are sampled per run, not exhaustively enumerated for long streams; zero-length segments are not generated. Two batches run the real TcpConnectionPool receive loop (hook H3) against nodes that re-segment and interleave their replies; one batch reads through the real Bearer::Unix arm over a kernel socketpair."),
   "C22": dict(engine="E1 netsim1", level="exploration", design="§4 C22",
       technique="deterministic simulation of a message zoo crossing the real muxers/bearers; on-wire judgement by an independent strict RFC 8949 walker plus decode-and-compare at the receiving agent",
       text="Generated messages of every variant of every protocol of both stacks are encoded by the real encoders, walked by an independent strict CBOR parser (single item, declared lengths satisfied), decoded back and compared, then carried through the real muxer/demuxer (or write_message/read_full_msgs) over a seeded pipe and compared again. Per-variant counters must be non-zero.",
-      note="Values come from the workload generator (wire-representable combinations). Four KNOWN-FINDING signatures: localtxsubmission reject-reason encoders."),
+      note="Values come from the workload generator (wire-representable combinations, block-sized bodies included). One batch carries the stack-2 zoo over a kernel Unix socketpair (real Bearer::Unix arms). Four KNOWN-FINDING signatures: localtxsubmission reject-reason encoders."),
   "C20": dict(engine="E1 netsim1", level="exploration", design="§4 C20, §2.2",
       technique="deterministic simulation of two real Plexers on a paused single-thread tokio runtime over seeded in-memory pipes (stall/delay/short-read/partial-write/back-pressure schedules); per-stream FIFO exactly-once history oracle + bounded-liveness watchdog",
       text="Seeded schedules of up to 6 agents x 200 uniquely stamped chunks (sizes 0..65535) through two real multiplexers; every pipe poll and task poll is a scheduling point decided by the run's PRNG; each endpoint must receive exactly its counterpart's chunks in order and nothing else, and the run must quiesce before the simulated-time watchdog.",
-      note="Single-threaded await-granularity interleavings only (no memory-model races). Socket replaced by SimPipe behind hook H1; tokio's mpsc/time/scheduler are real."),
+      note="Single-threaded await-granularity interleavings only (no memory-model races). Socket replaced by SimPipe behind hook H1 in two batches; a third joins the plexers by a kernel Unix socketpair (real Bearer::Unix arms, seeded SO_SNDBUF/SO_RCVBUF) whose buffer accounting the simulator does not own (determinism observed by the double-run guard and the all-runs digest). Tcp arms never run. tokio's mpsc/time/scheduler are real."),
   "C25": dict(engine="E2 p2psim + E1 netsim1", level="exploration", design="§4 C25",
       technique="deterministic simulation of two negotiating nodes with seeded version tables; negotiation oracle (spec::negotiate) on the responder's reply",
       text="Seeded table pairs (0..16 versions, overlapping/disjoint, equal/different magics and data shapes) are negotiated by the real responders of both stacks; an accepted version must be common, the highest common one, with agreeing magic; disjoint tables must be refused with VersionMismatch listing the responder's versions.",
-      note="A refusal while a common version exists is allowed (statement constrains acceptances and the disjoint case)."),
+      note="A refusal while a common version exists is allowed (statement constrains acceptances and the disjoint case). In a third of the stack-1 runs a simulated initiator delivers the Propose cut into several mux segments."),
   "C27": dict(engine="E2 p2psim", level="exploration", design="§4 C27, §2.3",
       technique="deterministic discrete-event simulation of InitiatorBehavior vs. simulated interface and peers with fault injection (connect failure, reset, Byzantine messages); set/limit/ban invariants after every step",
       text="Seeded histories of commands, housekeeping passes and interface events (faithful connection model, 1..3 and 1..20 peers, small limits) drive the real InitiatorBehavior; after every step the four promotion sets are checked for disjointness and limits, the banned set for monotonicity, and every Connect output is checked, at the instant it is produced, against the set of peers banned so far.",
@@ -72,7 +72,7 @@ CLAIMED = {
   "C24": dict(engine="E2 p2psim", level="exploration", design="§4 C24, Appendix A",
       technique="deterministic simulation of two-party message histories (conformant + Byzantine senders) against spec automata; per-state single-step sweep of every message variant",
       text="Seeded sessions of simulated peers drive the real State::apply of all 8 P2P protocols; at every reached state every message variant is applied and verdict, successor class and carried data are compared with a spec automaton written from the Ouroboros specification. All (state, message) pairs of the finite tables are reached in every tier; histories are sampled.",
-      note="Trusts the transcription of the specification in sim/src/spec/proto.rs (Leios automata: module docs only). Value-level side conditions are don't-care."),
+      note="Trusts the transcription of the specification in sim/src/spec/proto.rs (Leios automata: module docs only). Value-level side conditions are don't-care, but the last messages of a session are offered again at every state (acceptance must not depend on a payload equal to the state's)."),
   "C41": dict(engine="E4 histsim", level="exploration", design="§4 C41",
       technique="deterministic single-actor history simulation: seeded sign/add/remove/serde-restart sequences vs. BTreeMap reference model, minimised replayable tape",
       text="Seeded search over operation histories on real BuiltTransaction values; after every step an independent CBOR walker compares the witness set with the signature map and the reference model, checks body/id stability and verifies signatures. Sampling, not proof; no environment nondeterminism exists for this property, so the simulator contributes only history generation, restart injection, model comparison, minimisation and exact replay.",
